@@ -121,6 +121,8 @@ def st_op(draw, node, args, cfg):
             "op": "update",
             "picks": draw(st_picks(cfg.get("maxpicks", 3))),
             "xpicks": draw(st_picks(2)) if cfg.get("change_idx", False) or cfg.get("change_flag", False) else [],
+            # per picked address: None = plain value, True/False = value wrapped in Mask(v, array flag)
+            "mflags": draw(st.lists(st.sampled_from([None, None, True, False]), min_size=3, max_size=3)) if cfg.get("masked_constraints", True) else [],
             "newargs": draw(st_newargs(node, args, cfg)) if draw(st.integers(0, 2)) > 0 and cfg.get("argchange", True) else None,
             "tag": draw(st.sampled_from(["min", "all_unknown"])),
             "via": draw(st.sampled_from(["request", "gf.update", "trace.update"])),
@@ -333,7 +335,16 @@ def step_update(s, op, checks, case):
         if unvisited:
             p, n = unvisited[i % len(unvisited)]
             casg[p] = gfi.value_for(n, None, u)
-    chm = gfi.build_chm(casg, style=op.get("style", "or"))
+    # masked constraint values: Mask(v, True) constrains, Mask(v, False) leaves the address unconstrained
+    wire = dict(casg)
+    mflags = op.get("mflags", [])
+    for (p, v), mf in zip(list(casg.items()), mflags):
+        if mf is None or p not in s.run.dist_info:
+            continue
+        wire[p] = ("mask", v, {"v": bool(mf), "repr": "arr"})
+        if not mf:
+            del casg[p]
+    chm = gfi.build_chm(wire, style=op.get("style", "or"))
     k, s.key = jax.random.split(s.key)
     via = op.get("via", "request")
     if via == "gf.update":
@@ -694,6 +705,8 @@ def history_classes(case, s, infos):
                 cl.append("update:argchange")
             if info and info["casg"]:
                 cl.append("update:constrained")
+            if any(m is not None for m in op.get("mflags", [])):
+                cl.append("update:masked-constraint-values")
             if info and info["fresh"]:
                 cl.append("update:fresh-choices")
             if info and info["old_run"].branches != s.run.branches:
